@@ -242,13 +242,34 @@ def select1(ctx: Ctx, chk) -> None:
     nx.args = [None, gen.default]
     # element
     chk.instance(rule)
-    if norm(gen.elt) == f"PROTOCOL_VERSIONS[{kname}]":
+    # the selection may pick the *key* and look the table up afterwards: `k = next(..); return TABLE[k]`
+    keysel = False
+    if norm(gen.elt) == kname and not is_max:
+        par_ = ctx.prog.parents.get(gen.node)
+        while par_ is not None and not isinstance(par_, (ast.Assign, ast.AnnAssign, ast.Return, ast.FunctionDef)):
+            par_ = ctx.prog.parents.get(par_)
+        if isinstance(par_, (ast.Assign, ast.AnnAssign)):
+            tg_ = par_.targets[0] if isinstance(par_, ast.Assign) and len(par_.targets) == 1 else getattr(par_, "target", None)
+            if isinstance(tg_, ast.Name) and len(ctx.I.local_assigns(f).get(tg_.id) or []) == 1:
+                rets_ = [r_ for r_ in ctx.own_nodes(f) if isinstance(r_, ast.Return) and r_.value is not None]
+                keysel = len(rets_) == 1 and any(isinstance(x_, ast.Subscript) and norm(x_) == f"PROTOCOL_VERSIONS[{tg_.id}]" for x_ in ast.walk(rets_[0].value))
+    if keysel:
+        chk.ok(rule, f"{f.fq}::element", f"the matching key, then PROTOCOL_VERSIONS[<key>]", ctx.loc(f, gen.node), sample=False)
+    elif norm(gen.elt) == f"PROTOCOL_VERSIONS[{kname}]":
         chk.ok(rule, f"{f.fq}::element", f"PROTOCOL_VERSIONS[{kname}]", ctx.loc(f, gen.node), sample=False)
     else:
         chk.refute(rule, f"{f.fq}::element", f"the selection yields `{norm(gen.elt)}`, not the table entry of the matching key", ctx.loc(f, gen.node))
     # order
     chk.instance(rule)
     it = g.iter
+    if isinstance(it, ast.Name):
+        # a module constant that holds the candidates (`SUPPORTED_VERSIONS = sorted(...)`): judged as written there
+        dd_ = ctx.prog.resolve_name(f.module, it.id)
+        if dd_ is not None and dd_.kind == "const" and isinstance(dd_.obj, ast.expr):
+            it = dd_.obj
+    if isinstance(it, ast.Call) and isinstance(it.func, ast.Name) and it.func.id == "sorted" and it.args and isinstance(it.args[0], ast.GeneratorExp) and len(it.args[0].generators) == 1 and not it.args[0].generators[0].ifs and norm(it.args[0].generators[0].iter) in ("PROTOCOL_VERSIONS", "PROTOCOL_VERSIONS.keys()", "list(PROTOCOL_VERSIONS)") and isinstance(it.args[0].generators[0].target, ast.Name) and norm(it.args[0].elt) == f"AwesomeVersion({it.args[0].generators[0].target.id})" and not any(k.arg == "key" for k in it.keywords):
+        # sorted(AwesomeVersion(v) for v in TABLE): the keys, ordered as versions
+        it = ast.copy_location(ast.Call(func=it.func, args=[ast.Name(id="PROTOCOL_VERSIONS", ctx=ast.Load())], keywords=list(it.keywords) + [ast.keyword(arg="key", value=ast.Name(id="AwesomeVersion", ctx=ast.Load()))]), it)
     keys = list(ctx.versions)
     order = None
     if is_max:
@@ -291,7 +312,7 @@ def select1(ctx: Ctx, chk) -> None:
     chk.instance(rule)
     dflt = nx.args[1]
     d = ctx.prog.resolve_expr(f.module, dflt)
-    if is_max:
+    if is_max or keysel:
         try:
             dv = ctx.folder.plain(ctx.folder.fold(f.module, dflt))
         except Exception:  # noqa: BLE001
